@@ -282,6 +282,9 @@ func routineWord(state bool, alphabet []int, length int, outcomes []int) func() 
 			doLetter(o, lState1, &cur, "")
 		}
 		doLetter(o, lSetRoutine, &cur, "")
+		if vsched.Choose(2) == 1 {
+			vsched.Settle() // the first instance is inside the managed function when the word starts
+		}
 		for i := 0; i < length; i++ {
 			doLetter(o, alphabet[vsched.Choose(len(alphabet))], &cur, "")
 		}
@@ -349,6 +352,12 @@ func init() {
 		Doc:   "RoutineContainer: ctx+routine set, then every word of length 3 over {SetRoutine(new), RestartRoutine, SetContext(fresh,true), ClearContext, SetContext(same,false)}; instances run until cancelled and return two steps later; overlap, wait-channel and supersession oracles",
 		Quick: eng.Bounds{PB: 2, Delay: true}, Thorough: eng.Bounds{PB: 3, Delay: true},
 		Body: routineWord(false, basic, 3, []int{iUntilCancelled}),
+	})
+	eng.Register(&eng.Scenario{
+		Name: "routine-word4", Props: []string{"C04", "C05"}, ObsNames: stdObs,
+		Doc:   "RoutineContainer: as routine-word3 with words of length 4 over {SetRoutine(new), SetContext(fresh,false), ClearContext, RestartRoutine} (e.g. ClearContext; SetRoutine; SetRoutine; SetContext while the first instance is still returning)",
+		Quick: eng.Bounds{PB: 1, Delay: true}, Thorough: eng.Bounds{PB: 3, Delay: true},
+		Body:  routineWord(false, []int{lSetRoutine, lCtxFresh, lClear, lRestart}, 4, []int{iUntilCancelled}),
 	})
 	eng.Register(&eng.Scenario{
 		Name: "routine-word2-outcomes", Props: []string{"C04", "C05"}, ObsNames: stdObs,
